@@ -196,7 +196,7 @@ struct SIMDVector<int32_t,simd_abi::avx512> {
 
     FASTOR_INLINE int32_t minimum() {
         internal::int32_alias_t *vals = (internal::int32_alias_t*)&value;
-        int32_t quan = 0;
+        int32_t quan = vals[0];
         for (FASTOR_INDEX i=0; i<Size; ++i)
             if (vals[i]<quan)
                 quan = vals[i];
@@ -204,7 +204,7 @@ struct SIMDVector<int32_t,simd_abi::avx512> {
     }
     FASTOR_INLINE int32_t maximum() {
         internal::int32_alias_t *vals = (internal::int32_alias_t*)&value;
-        int32_t quan = 0;
+        int32_t quan = vals[0];
         for (FASTOR_INDEX i=0; i<Size; ++i)
             if (vals[i]>quan)
                 quan = vals[i];
@@ -537,7 +537,7 @@ struct SIMDVector<int32_t,simd_abi::avx> {
 
     FASTOR_INLINE int32_t minimum() {
         internal::int32_alias_t *vals = (internal::int32_alias_t*)&value;
-        int32_t quan = 0;
+        int32_t quan = vals[0];
         for (FASTOR_INDEX i=0; i<Size; ++i)
             if (vals[i]<quan)
                 quan = vals[i];
@@ -545,7 +545,7 @@ struct SIMDVector<int32_t,simd_abi::avx> {
     }
     FASTOR_INLINE int32_t maximum() {
         internal::int32_alias_t *vals = (internal::int32_alias_t*)&value;
-        int32_t quan = 0;
+        int32_t quan = vals[0];
         for (FASTOR_INDEX i=0; i<Size; ++i)
             if (vals[i]>quan)
                 quan = vals[i];
@@ -857,7 +857,7 @@ struct SIMDVector<int32_t,simd_abi::sse> {
 
     FASTOR_INLINE int32_t minimum() {
         internal::int32_alias_t *vals = (internal::int32_alias_t*)&value;
-        int32_t quan = 0;
+        int32_t quan = vals[0];
         for (FASTOR_INDEX i=0; i<Size; ++i)
             if (vals[i]<quan)
                 quan = vals[i];
@@ -865,7 +865,7 @@ struct SIMDVector<int32_t,simd_abi::sse> {
     }
     FASTOR_INLINE int32_t maximum() {
         internal::int32_alias_t *vals = (internal::int32_alias_t*)&value;
-        int32_t quan = 0;
+        int32_t quan = vals[0];
         for (FASTOR_INDEX i=0; i<Size; ++i)
             if (vals[i]>quan)
                 quan = vals[i];
